@@ -104,11 +104,13 @@ def th_scheme(check, proj, c):
                 okup = False
         if okup:
             check.ok("TH-SCHEME", where, "update is exactly the solution x of the system, applied once", loc)
+        # one step is one step of size dt (which reduction of a local-time-step array stamps the
+        # field is C07's clause, not this one)
         adv = f.time.s
-        if adv.poly == {1: Fraction(1)} and adv.kinds == frozenset({"min"}):
-            check.ok("AFF-TIME", where, "step advances time by exactly 1*min(dt)", loc)
+        if adv.poly == {1: Fraction(1)}:
+            check.ok("AFF-TIME", where, "the step is applied once: time advances by exactly one dt", loc)
         else:
-            check.violation("AFF-TIME", where, "step advances time by %r (expected 1*dt{min})" % adv, loc, key="advance")
+            check.violation("AFF-TIME", where, "step advances time by %r (expected exactly one dt)" % adv, loc, key="advance")
         # stored history
         if name == "gear":
             st = o["stored"].get("_lastresidual")
@@ -245,12 +247,15 @@ def _mentions_attr(node, attr):
     return False
 
 
-def fd_column(check, proj):
+def fd_column(check, proj, conservation_only=False):
+    """conservation_only (C01): only what makes the volume-weighted column sums vanish -- every
+    column a full difference of two residuals over a scalar; which cell was perturbed, by how much
+    and how accurate the quotient is belong to C06 alone"""
     for lin in (0, 1):
-        _fd_column(check, proj, lin)
+        _fd_column(check, proj, lin, conservation_only)
 
 
-def _fd_column(check, proj, lin):
+def _fd_column(check, proj, lin, conservation_only=False):
     c = proj.cls("integration.implicit")
     fq = proj.resolve(c, "calc_jacobian")
     loc = fq.loc()
@@ -328,6 +333,8 @@ def _fd_column(check, proj, lin):
         rels.add((v.eps.rel, v.eps.per_cell, v.eps.absval))
         if v.eps.floor is not None:
             floors.add(v.eps.floor)
+    if conservation_only:
+        problems = [(k, t) for k, t in problems if k not in ("pert", "eps")]
     for kind, text in problems:
         check.violation("FD-COLUMN" if kind != "layout" else "LAYOUT-AGREE", q, text, loc, key=kind)
     if not problems:
@@ -336,6 +343,8 @@ def _fd_column(check, proj, lin):
             check.ok("LAYOUT-AGREE", q, "Jacobian rows [qq::neq], columns i*neq+q; solve_implicit packs/unpacks [q::neq], diagonal by np.repeat: one interleaved layout", loc)
         else:
             check.violation("FD-COLUMN", q, "only blocks %s of the Jacobian are filled" % sorted(covered), loc, key="coverage")
+    if conservation_only:
+        return
     # perturbation magnitude
     for fl in sorted(floors):
         check.violation("FD-STEP-ABS", q, "the perturbation is rel*max(mean|q|, %s): an absolute floor. For states of magnitude far below %s (small-amplitude data, other units) the step is not small relative to the state, the forward difference is no longer the derivative of a nonlinear operator (error O(floor/|q|)), and the step does not scale with a change of units" % (float(fl), float(fl)), loc, key="abs-floor")
